@@ -8,6 +8,15 @@ def replay_file(prop, path):
         rec = json.load(fh)
     p = rec["payload"]
     kind = p.get("kind")
+    if kind == "acnsim_trace":
+        from .acnsim_trace import replay_trace
+        d = replay_trace(p)
+        if d is None:
+            print("replay: the recorded execution is now accepted by the specification")
+            return 0
+        print("replay: still rejected: %s" % json.dumps(d, default=repr)[:600])
+        print("VIOLATION property=%s replay=%s" % (prop, path))
+        return 1
     if kind and kind.startswith("acnsim"):
         from . import props_acnsim as pa
         b, seed = p["behaviour"], 1
